@@ -4,6 +4,10 @@ import (
 	"bytes"
 	"context"
 	"fmt"
+	"github.com/oneconcern/datamon/pkg/storage/localfs"
+	"github.com/spf13/afero"
+	"io"
+	"strings"
 	"testing"
 	"time"
 
@@ -197,3 +201,40 @@ func TestKnownTrailingSlash(t *testing.T)    { runScenario(t, "slash") }
 func TestKnownMissingParent(t *testing.T)    { runScenario(t, "parent") }
 func TestKnownLexicographic(t *testing.T)    { runScenario(t, "order") }
 func TestKnownAbandonedListing(t *testing.T) { runScenario(t, "stale") }
+
+// TestRegressExclusivePutDefaultOptions: the store as the CLI builds it (retries on, ~30 s budget): a create-if-absent
+// Put on an existing key is refused however often the store retries, and the existing object stays as it was.
+// Thorough tier only (the refusal takes the whole retry budget).
+func TestRegressExclusivePutDefaultOptions(t *testing.T) {
+	if !hx.Thorough() {
+		t.Skip("thorough tier only: the refusal takes the store's whole retry budget (~30 s)")
+	}
+	sc := hx.NewScratch()
+	defer sc.Close()
+	s := localfs.New(afero.NewBasePathFs(afero.NewOsFs(), sc.Dir("store")), localfs.WithLogger(hx.Nop))
+	ctx := context.Background()
+	if err := s.Put(ctx, "purge/lock", strings.NewReader("job 1"), true); err != nil {
+		t.Fatalf("first create-if-absent Put: %v", err)
+	}
+	err, hung, panicked := hx.Guard(120*time.Second, func() error {
+		if e := s.Put(ctx, "purge/lock", strings.NewReader("job 2"), true); e == nil {
+			return fmt.Errorf("a second create-if-absent Put on the same key succeeded")
+		}
+		return nil
+	})
+	if hung || panicked || err != nil {
+		stats.Violation("exclusive Put with default options")
+		t.Fatalf("%v (hung=%v panicked=%v)", err, hung, panicked)
+	}
+	r, err := s.Get(ctx, "purge/lock")
+	if err != nil {
+		t.Fatalf("Get after the refused Put: %v", err)
+	}
+	b, _ := io.ReadAll(r)
+	_ = r.Close()
+	if string(b) != "job 1" {
+		stats.Violation("exclusive Put with default options")
+		t.Fatalf("the refused create-if-absent Put changed the object: %q", b)
+	}
+	stats.Case("pinned exclusive put with default options (retries on)", true, func() interface{} { return "purge/lock" })
+}
